@@ -305,7 +305,7 @@ class Ctx:
                 f.write("#audit_module %s\n" % m)
         rc2, out2 = self.lake_build(["IstioModel.Common.Audit"])
         rc2, out2, dt = sh(["lake", "env", "lean", audit], cwd=LEAN, timeout=1200)
-        self.checker_cmds.append("lake env lean work/%s/audit.lean  (#audit_module: axioms of every theorem)" % self.pid)
+        self.checker_cmds.append("lake env lean %s  (#audit_module: axioms of every theorem)" % os.path.relpath(audit, ROOT))
         thms = []
         badax = []
         for line in out2.split("\n"):
